@@ -6,6 +6,7 @@ pub uninterp spec fn fmaxr() -> real;                  // f64::MAX as a real
 pub uninterp spec fn r_sqrt(x: real) -> real;
 pub uninterp spec fn r_ln(x: real) -> real;
 pub uninterp spec fn r_ceil(x: real) -> real;
+pub uninterp spec fn r_floor(x: real) -> int;           // the integer part: r_floor(x) <= x < r_floor(x) + 1
 pub uninterp spec fn r_pow(x: real, y: real) -> real;
 pub open spec fn r_clamp(x: real, lo: real, hi: real) -> real { if x < lo { lo } else if x > hi { hi } else { x } }
 pub open spec fn r_min(a: real, b: real) -> real { if a <= b { a } else { b } }
@@ -20,6 +21,7 @@ pub proof fn ax_reals()
         forall|x: real, y: real| 0real < x <= y ==> #[trigger] r_ln(x) <= #[trigger] r_ln(y),
         r_ln(1real) == 0real,
         forall|x: real| #[trigger] r_ceil(x) >= x && r_ceil(x) < x + 1real,
+        forall|x: real| (#[trigger] r_floor(x)) as real <= x && x < (r_floor(x) + 1) as real,
 {}
 #[verifier::external_body] pub fn f_const(n: i64, d: i64) -> (r: f64) requires d > 0 ensures f64r(r) == (n as real) / (d as real) { (n as f64) / (d as f64) }
 #[verifier::external_body] pub fn f_maxval() -> (r: f64) ensures f64r(r) == fmaxr() { f64::MAX }
@@ -39,6 +41,7 @@ pub proof fn ax_reals()
 #[verifier::external_body] pub fn f_sqrt(a: f64) -> (r: f64) ensures f64r(r) == r_sqrt(f64r(a)) { a.sqrt() }
 #[verifier::external_body] pub fn f_ln(a: f64) -> (r: f64) ensures f64r(r) == r_ln(f64r(a)) { a.ln() }
 #[verifier::external_body] pub fn f_ceil(a: f64) -> (r: f64) ensures f64r(r) == r_ceil(f64r(a)) { a.ceil() }
+#[verifier::external_body] pub fn f_floor(a: f64) -> (r: f64) ensures f64r(r) == r_floor(f64r(a)) as real { a.floor() }
 #[verifier::external_body] pub fn f_abs(a: f64) -> (r: f64) ensures f64r(r) == r_abs(f64r(a)) { a.abs() }
 #[verifier::external_body] pub fn f_powf(a: f64, b: f64) -> (r: f64) ensures f64r(r) == r_pow(f64r(a), f64r(b)) { a.powf(b) }
 #[verifier::external_body] pub fn f_min(a: f64, b: f64) -> (r: f64) ensures f64r(r) == r_min(f64r(a), f64r(b)) { a.min(b) }
